@@ -249,7 +249,7 @@ def run_case(case, ctx):
     recipe, U, P, noext, cells = build_recipe(case, ctx)
     exp = model(recipe, U, P, noext)
     cells_by_id = {c[0]: c for c in cells}
-    root = ctx.scratch / f"c06-{case['k']}"
+    top, root = trees.odd_root(ctx.scratch, "c06", case["k"])
     try:
         trees.build(recipe, root, ctx.state["styles"])
         cwd, gargs = trees.place_lint(rng_for(ctx.seed, "c06place", case["k"]), root)
@@ -292,5 +292,5 @@ def run_case(case, ctx):
         if case["k"] == 0:
             res.sample = {"cells": cells[:12], "expected": trees.jsonable({k: (sorted(v) if not isinstance(v, dict) else {a: sorted(b) if isinstance(b, set) else b for a, b in list(v.items())[:5]}) for k, v in exp.items()})}
     finally:
-        shutil.rmtree(root, ignore_errors=True)
+        shutil.rmtree(top, ignore_errors=True)
     return res.out()
